@@ -259,8 +259,19 @@ def run_iface(ctx, c, f, ref, rpos, cpos):
             rl = rl[:max(0, len(rl) - (rng_r % 2))]
             if not rl or not cl:
                 raise Skip()
-            vf = sf.Frame(np.array([[3000 + 10 * a + b for b in range(len(cl))] for a in range(len(rl))]).reshape(len(rl), len(cl)), index=rl, columns=cl)
-            look = {(tok(r), tok(cc)): f'i:{3000 + 10 * a + b}' for a, r in enumerate(rl) for b, cc in enumerate(cl)}
+            if rng_r % 3 == 0:
+                vf = sf.Frame(np.array([[3000 + 10 * a + b for b in range(len(cl))] for a in range(len(rl))]).reshape(len(rl), len(cl)), index=rl, columns=cl)
+                look = {(tok(r), tok(cc)): f'i:{3000 + 10 * a + b}' for a, r in enumerate(rl) for b, cc in enumerate(cl)}
+            else:
+                # one block per value column, dtypes differing from column to column (int, float with a fraction,
+                # short and long text): the target sub-block must be resolved against EVERY value block
+                kinds = [(rng_r // 3 + b) % 4 for b in range(len(cl))]
+
+                def cellv(a, b):
+                    k = kinds[b]
+                    return [3000 + 10 * a + b, 0.5 + a + 10 * b, 'ab', 'longer-text-%d' % a][k]
+                vf = sf.Frame.from_items(((cc, [cellv(a, b) for a in range(len(rl))]) for b, cc in enumerate(cl)), index=rl)
+                look = {(tok(r), tok(cc)): tok(cellv(a, b)) for a, r in enumerate(rl) for b, cc in enumerate(cl)}
             for j in cp:
                 for i in rp:
                     exp[j][i] = look.get((ref.index[i], ref.columns[j]), 'i:-1')
